@@ -30,7 +30,16 @@ def hx(b):
 def gen_sequences(r: Run):
     rng = random.Random(r.seed)
     n = 20000 if r.tier == "thorough" else 1500
-    seqs = [
+    from . import common as _c
+    dseqs = []
+    for d in _c.dict_ints(3, 10000):
+        # arguments of exactly d-1, d, d+1 bytes whose meaning changes if a byte is lost
+        f1 = b"C" * (d - 2) + b"He" if d >= 3 else b"He"
+        f2 = b"C" * d
+        sp = b"C[" + b"0" * max(0, d - 5) + b"13]"
+        dseqs.append(["parse " + hx(f1), "get 0 " + hx(b"He"), "get 0 " + hx(b"H"), "get 0 " + hx(b"C"), "parse " + hx(f2), "get 1 " + hx(b"C"),
+                      "new", "set 2 " + hx(sp) + " 5", "get 2 " + hx(b"C[13]"), "get 2 " + hx(sp), "mass 2"])
+    seqs = dseqs + [
         ["parse " + hx(LONG_FORMULA[0]), "mass 0", "parse " + hx(LONG_FORMULA[1]), "get 1 " + hx(b"He"), "get 1 " + hx(b"H"), "parse " + hx(LONG_FORMULA[2]),
          "new", "set 3 " + hx(LONG_SPEC[0]) + " 5", "get 3 " + hx(b"C[13]"), "get 3 " + hx(LONG_SPEC[0]), "inc 3 " + hx(LONG_SPEC[2]) + " 1"],
         ["new", "parse 4829", "set 0 435b785d 1", "get 0 c3a9", "free 0"],
